@@ -163,6 +163,8 @@ SWC_PID = r"-?[0-9]+"
 NUMBER_CHARS = r"[+\-.0-9eE]"
 # decimal number of the ASC format: sign, digits with an optional point, exponent
 ASC_NUMBER = r"[-+]?(?:\d+\.?\d*|\.\d+)(?:[eE][-+]?\d+)?"
+# integers and decimals as Neurolucida writes them
+PLAIN_DECIMAL = r"-?(?:0|[1-9][0-9]*)(?:\.[0-9]+)?"
 
 
 def L(text):
@@ -306,6 +308,16 @@ def swc_facts(n_extra, writer_only=False):
     return [f for f in out if f is not None]
 
 
+def writer_line_facts():
+    """what the writer yields for a node is ONE line: the cell texts contain no line-break character, the only one is the final newline
+    (premise of the round-trip lemma's io assumption `the reader gets the yielded texts back line by line`)"""
+    names = COLS
+    wlang = {nm: L(W_NAT) if nm in ("id", "type") else L(W_PID) if nm == "pid" else L(W_FLOAT) for nm in names}
+    no_break = z3.Star(RZ.re_of_ranges(RZ.complement([(10, 10), (13, 13)])))
+    return [subset("written-row-line-ends-with-its-only-line-break", RZ.cat(_joined([wlang[nm] for nm in names], RZ.lit(" ")), RZ.lit("\n")), RZ.cat(no_break, RZ.lit("\n")),
+                   "the line `' '.join(cells) + '\\n'` has no LF / CR but its last character: a reader splitting at line breaks gets it back as one line")]
+
+
 def token_lemma_facts():
     """the whitespace-token lemma as language facts over ABSTRACT token languages (pattern-independent):
     if a.g.b = a'.g'.b' with a, a' whitespace runs, g, g' nonempty whitespace-free, b, b' empty or starting with whitespace,
@@ -330,12 +342,17 @@ def asc_facts():
     out = [
         subset("number-pattern-converts", Pn.fullmatch(), fl_ok, "a word that IS a number (matches RE_FLOAT entirely) is within the argument grammar of float()"),
         subset("number-pattern-is-a-decimal-number", Pn.fullmatch(), L(ASC_NUMBER), "RE_FLOAT spells decimal numbers only (sign, digits, point, exponent)"),
-        subset("plain-decimal-numbers-are-numbers", L(r"-?(?:0|[1-9][0-9]*)(?:\.[0-9]+)?"), z3.Intersect(Pn.fullmatch(), hitw),
+        subset("plain-decimal-numbers-are-numbers", L(PLAIN_DECIMAL), z3.Intersect(Pn.fullmatch(), hitw),
                "integers and decimals as Neurolucida writes them are words that pass the number test"),
         # defect found here and FIXED in /repo (known_findings.jsonl): the Lexer applied RE_FLOAT.match (a PREFIX test): a word like '1_0' or '1٣' passes it, float() accepts it
         # (10.0 / 13.0 -- the second one is tolerated by the reference, which allows any Unicode decimal digit) and a malformed point is converted instead of rejected.
         subset("number-token-is-entirely-a-number", z3.Intersect(hitw, fl_ok), L(ASC_NUMBER),
                "a word that passes the Lexer's number test AND that float() converts (i.e. a word that becomes a FLOAT token) is a decimal number in its entirety"),
+    ]
+    # reference-language facts the Lexer contract (contracts/C15.py, Lexer.__next__) uses as transfer lemmas between language predicates
+    out += [
+        subset("asc-number-converts", L(ASC_NUMBER), fl_ok, "every decimal number of the ASC format is within the argument grammar of float(): converting one cannot raise"),
+        subset("plain-decimal-is-an-asc-number", L(PLAIN_DECIMAL), L(ASC_NUMBER), "integers and decimals as Neurolucida writes them are decimal numbers of the format"),
     ]
     for w in ("1,5", "1.2.3", "2.5E-", "3.5mm", "1e", "-", ".", "e5"):
         s = RZ.zstr(w)
@@ -368,7 +385,7 @@ def facts(prop):
     if prop == "C02":
         fs = swc_facts(0) + swc_facts(1)
     elif prop == "C01":
-        fs = swc_facts(0, writer_only=True)
+        fs = swc_facts(0, writer_only=True) + writer_line_facts()
     elif prop == "C15":
         fs = asc_facts()
     else:
